@@ -299,6 +299,7 @@ func init() {
 			E6StyleCoverage(c, r, map[string]bool{"Rasterizer": true})
 			E6ScannerSites(c, r)
 			E6WindingMode(c, r)
+			E6FillRuleMap(c, r)
 		},
 	})
 }
